@@ -25,10 +25,13 @@ use vcore::{Cx, Fail};
 
 pub type Ch = Vec<u64>;
 
-/// documented defaults of `emit_batcher::bounded` (doc comments next to the constants)
-pub const MAX_RETRIES: u32 = 10;
-pub const MAX_BACKOFF: Duration = Duration::from_secs(10);
-pub const MAX_IDLE: Duration = Duration::from_millis(500);
+/// "Bounded" in C08 is judged against generous absolute bounds, NOT against the current constants of
+/// `emit_batcher::bounded` (10 retries, 10 s, 500 ms): the statement does not fix those, and a
+/// maintainer may retune them. The retry budget is *learned* from the run (what the receiver does
+/// after a retryable failure is read off the log) and must be the same for every batch and >= 1.
+pub const MAX_ATTEMPTS: u32 = 64;
+pub const MAX_BACKOFF: Duration = Duration::from_secs(600);
+pub const MAX_IDLE: Duration = Duration::from_secs(60);
 
 #[derive(Serialize, Deserialize, Debug, Clone)]
 pub struct Case {
@@ -729,6 +732,21 @@ pub fn judge(trace: &Trace, ops: &[Op]) -> Verdict {
     let mut op_idx = usize::MAX;
     let f = |sig: &str, msg: String| Fail::new(sig, msg);
 
+    // lookahead: after a retryable failure, does the receiver re-invoke the processor with exactly the
+    // remainder? (the next processor invocation in the log tells)
+    let next_call: Vec<Option<&Vec<u64>>> = {
+        let mut out = vec![None; trace.log.len()];
+        let mut next: Option<&Vec<u64>> = None;
+        for (i, ev) in trace.log.iter().enumerate().rev() {
+            out[i] = next;
+            if let Ev::BatchCall(items) = ev {
+                next = Some(items);
+            }
+        }
+        out
+    };
+    let mut budgets: Vec<(u32, Vec<u64>)> = Vec::new();
+
     for (pos, ev) in trace.log.iter().enumerate() {
         match ev {
             Ev::Op(i) => {
@@ -849,7 +867,7 @@ pub fn judge(trace: &Trace, ops: &[Op]) -> Verdict {
                     c.attempt = items.clone();
                     c.in_attempt = true;
                     c.wait_seen = false;
-                    if c.attempts > MAX_RETRIES + 1 {
+                    if c.attempts > MAX_ATTEMPTS {
                         v.c08.push(f("C08/too-many-attempts", format!("batch attempted {} times", c.attempts)));
                     }
                     v.stats.max_chain = v.stats.max_chain.max(c.attempts - 1);
@@ -932,7 +950,14 @@ pub fn judge(trace: &Trace, ops: &[Op]) -> Verdict {
                         if rem.iter().any(|x| *x >= 1_000_000) {
                             v.stats.foreign = true;
                         }
-                        let will_retry = !rem.is_empty() && c.attempts <= MAX_RETRIES;
+                        // retried iff the next processor invocation is exactly the remainder (a partial
+                        // overlap is caught as a duplicate delivery / wrong remainder below)
+                        let redelivered = next_call[pos].map_or(false, |n| n == rem || n.iter().any(|x| rem.contains(x)));
+                        let will_retry = !rem.is_empty() && redelivered;
+                        if !rem.is_empty() && !redelivered {
+                            // given up: the retries this batch got are its budget
+                            budgets.push((c.attempts - 1, rem.clone()));
+                        }
                         for x in &c.attempt {
                             if st.get(x) == Some(&St::InFlight) {
                                 if will_retry && rem.contains(x) {
@@ -1017,6 +1042,21 @@ pub fn judge(trace: &Trace, ops: &[Op]) -> Verdict {
         }
         // a retry the model expects must happen: if the receiver took a NEW first attempt or idled
         // instead, BatchCall/WaitReq handling above reports it; nothing to do here
+    }
+    // the retry budget is per batch: every batch that was given up got the same number of retries, and
+    // a remainder is re-delivered at least once (unless the receiver was torn down: the trace ended)
+    if exec_done || trace.stuck.is_none() {
+        if let Some((n, rem)) = budgets.iter().find(|(n, _)| *n == 0) {
+            let _ = n;
+            v.c06.push(f("C06/remainder-never-redelivered", format!("the processor returned remainder {rem:?} after the first attempt and it was never re-delivered")));
+        } else if let (Some(min), Some(max)) = (budgets.iter().map(|b| b.0).min(), budgets.iter().map(|b| b.0).max()) {
+            if min != max {
+                v.c06.push(f(
+                    "C06/retry-budget-differs-between-batches",
+                    format!("batches were given up after different numbers of retries: {:?}", budgets.iter().map(|b| b.0).collect::<Vec<_>>()),
+                ));
+            }
+        }
     }
     if let Some(why) = &trace.stuck {
         v.c08.push(f("C08/no-progress", why.clone()));
